@@ -252,15 +252,16 @@ def builtin_cases(draw, tier):
     n = D.weighted(draw, [(2, st.integers(msl, msl + 3)), (5, st.integers(msl, 24)), (3, st.integers(msl, nmax))])
     maxl = D.weighted(draw, [(1, st.just(msl)), (6, st.integers(msl, n + 2)), (3, st.just(1000))])
     exact = draw(st.booleans()) if "Cov" not in coll else False
-    X, meta = draw(D.structured_matrix(n, p, exact=exact, boundary_positions=(0, 1, msl - 1, n - 1, n - msl),
-                                       max_shifts=1, max_spikes=3, max_bumps=3))
-    case = {"detector": det, "coll": coll, "point": point, "msl": msl, "maxl": maxl, "X": X,
+    case = {"detector": det, "coll": coll, "point": point, "msl": msl, "maxl": maxl,
             "c_scale": draw(st.sampled_from([0.0, 0.1, 0.5, 1.0, 2.0])),
             "p_scale": draw(st.sampled_from([0.0, 0.1, 0.5, 1.0, 2.0]))}
     if det == "MVCAPA":
         fams = ["dense", "sparse", "combined"] + (["intermediate"] if p >= 2 else [])
         case["c_pen"] = draw(st.sampled_from(fams))
         case["p_pen"] = draw(st.sampled_from(fams))
+    # bulk data last (see strategies/data.py)
+    case["X"], meta = draw(D.structured_matrix(n, p, exact=exact, boundary_positions=(0, 1, msl - 1, n - 1, n - msl),
+                                               max_shifts=1, max_spikes=3, max_bumps=3))
     return case
 
 
